@@ -493,4 +493,13 @@ def orderedPairs (c : Circuit) (pairs : List (Op × Op)) : Bool :=
       | _, _ => false
     else true)
 
+/-- conflicting pairs `(a, b)`: `a` does not sit in a later moment than `b` (they may share one) -/
+def notAfterPairs (c : Circuit) (pairs : List (Op × Op)) : Bool :=
+  pairs.all (fun (a, b) =>
+    if opConflict a b then
+      match momentOf c a.id, momentOf c b.id with
+      | some i, some j => i ≤ j
+      | _, _ => false
+    else true)
+
 end CirqVerif.C05
